@@ -55,6 +55,12 @@ impl H263State {
             .contains(DecoderOption::SORENSON_SPARK_BITSTREAM)
     }
 
+    /// The carried-over picture options, as raw bits (verification hook).
+    #[cfg(feature = "verif-hooks")]
+    pub fn verif_running_options(&self) -> u32 {
+        self.running_options.bits()
+    }
+
     /// Get the last picture decoded in the bitstream.
     ///
     /// If `None`, then no pictures have yet to be decoded.
